@@ -21,9 +21,10 @@ static actor *actor_of_handle(ABT_thread h)
 #define MAXREQ 24
 static struct migstate {
     int npool[MAXREQ];          /* requested pool of accepted request k */
-    volatile int returned[MAXREQ];
+    volatile int returned[MAXREQ];   /* 0 in flight, 1 accepted, 2 rejected */
+    volatile uint64_t t_start[MAXREQ], t_ret[MAXREQ];
+    int settled[MAXREQ];             /* served, superseded or rejected */
     volatile int nstarted;      /* requests whose call has begun */
-    int first_unserved;         /* requests before this index are settled */
     int observed_changes;
 } g_mig[MAXU + 1];
 static struct migstate *mig_of(actor *u)
@@ -37,7 +38,7 @@ static int mig_match(int code, int pi, int oldpool)
     if (code >= 0)
         return code == pi;
     if (code == -1)
-        return pi != oldpool;
+        return pi != oldpool; /* ABT_thread_migrate: some pool of another stream */
     int xi = -2 - code;
     for (int q = 0; q < G.xs[xi].npools; q++)
         if (G.xs[xi].pools[q] == pi)
@@ -47,15 +48,17 @@ static int mig_match(int code, int pi, int oldpool)
 /* called by a unit before a scheduling point; returns a snapshot token */
 static int mig_before_point(actor *a)
 {
-    struct migstate *m = mig_of(a);
-    int n = ALOAD(m->nstarted), must = 0;
-    for (int k = m->first_unserved; k < n && k < MAXREQ; k++)
-        if (ALOAD(m->returned[k]) == 1)
-            must = 1;
-    return must;
+    (void)a;
+    return 0;
 }
 /* called when the unit runs again after the scheduling point */
-static void mig_after_point(actor *a, int must)
+/* tp: tick at which the scheduling point began.  Requests whose call intervals
+ * overlap are unordered.  The target that is in force when the point serves the
+ * request flag was stored by a request f such that no request that had already
+ * returned before tp started after f returned (such a request would have stored
+ * later).  The pool the unit comes back from must be the target of such an f;
+ * if no request had returned before tp, any pool is acceptable here. */
+static void mig_after_point_t(actor *a, uint64_t tp)
 {
     if (a->kind != A_UNIT && a->kind != A_MAIN)
         return;
@@ -67,29 +70,48 @@ static void mig_after_point(actor *a, int must)
     int n = ALOAD(m->nstarted);
     if (n > MAXREQ)
         n = MAXREQ;
-    if (pi != a->cur_pool)
+    if (pi != a->cur_pool) {
         m->observed_changes++;
-    int hit = -1;
-    for (int k = m->first_unserved; k < n; k++)
-        if (ALOAD(m->returned[k]) != 2 && mig_match(m->npool[k], pi, a->cur_pool))
-            hit = k;
-    if (must && hit < 0) {
-        char want[128];
-        int w = 0;
-        for (int k = m->first_unserved; k < n && w < 100; k++)
-            if (ALOAD(m->returned[k]) != 2)
-                w += sprintf(want + w, "%d ", m->npool[k]);
-        viol("migration: unit %s was scheduled again out of pool %d after an accepted request; "
-             "requested pool(s): %s",
-             a->kind == A_MAIN ? "main" : "u", pi, want);
-    }
-    if (hit >= 0) {
-        m->first_unserved = hit + 1;
         stat_add("migrations_observed", 1);
     }
+    int done = 0, ok = 0;
+    char want[160];
+    int w = 0;
+    want[0] = 0;
+    for (int f = 0; f < n; f++) {
+        int rf = ALOAD(m->returned[f]);
+        if (rf == 2)
+            continue;
+        uint64_t f_ret = rf == 1 ? ALOAD(m->t_ret[f]) : UINT64_MAX;
+        if (rf == 1 && f_ret < tp)
+            done = 1;
+        int superseded = 0;
+        for (int r = 0; r < n; r++) {
+            if (r == f || ALOAD(m->returned[r]) != 1)
+                continue;
+            if (ALOAD(m->t_ret[r]) < tp && m->t_start[r] > f_ret)
+                superseded = 1;
+        }
+        if (superseded)
+            continue;
+        if (m->npool[f] == -1 || mig_match(m->npool[f], pi, a->cur_pool))
+            ok = 1;
+        if (w < 120)
+            w += sprintf(want + w, "%d ", m->npool[f]);
+    }
+    hist(a, "mig_obs", pi, done, ok);
+    if (done && !ok)
+        viol("migration: unit %s%d was scheduled again out of pool %d after an accepted request "
+             "had returned; target(s) that can be in force: %s(-1: other stream, <-1: stream -2-x)",
+             a->kind == A_MAIN ? "main" : "u", a->id, pi, want);
     a->cur_pool = pi;
     if (a->kind == A_UNIT)
         a->expect_pool = -1;
+}
+static void mig_after_point(actor *a, int must)
+{
+    (void)a;
+    (void)must;
 }
 
 static void op_mig(actor *a, int ui, int how, int target)
@@ -98,19 +120,27 @@ static void op_mig(actor *a, int ui, int how, int target)
     actor *u = ui < 0 ? a : &G.unit[ui];
     struct migstate *m = mig_of(u);
     ABT_thread h = u->h;
+    if (ui < 0) {
+        /* the creator may not have stored the handle yet */
+        int rcs = ABT_self_get_thread(&h);
+        CHECK_RC(rcs, "ABT_self_get_thread");
+    }
     int k = __atomic_fetch_add(&m->nstarted, 1, __ATOMIC_SEQ_CST);
+    if (k < MAXREQ)
+        m->t_start[k] = now_tick();
     int tpool = -1;
     if (how == 0)
         tpool = target;
     int pending = 0;
-    for (int j = m->first_unserved; j < k && j < MAXREQ; j++)
+    for (int j = 0; j < k && j < MAXREQ; j++)
         if (ALOAD(m->returned[j]) != 2)
-            pending = 1;
+            pending = 1; /* some earlier request may have moved the unit */
     int cur = u->cur_pool;
     int rc;
     if (k >= MAXREQ)
         generr("too many migration requests");
     m->npool[k] = tpool;
+    u->migr_pending = 1; /* before the call: the unit may be moved before it returns */
     switch (how) {
         case 0:
             rc = ABT_thread_migrate_to_pool(h, G.pool[target].h);
@@ -136,8 +166,11 @@ static void op_mig(actor *a, int ui, int how, int target)
         if (rc == ABT_ERR_MIGRATION_TARGET) {
             ASTORE(m->returned[k], 2);
             int maybe = (target == cur);
-            for (int j = m->first_unserved; j < k; j++)
-                if (m->npool[j] == target || m->npool[j] < 0)
+            /* overlapping requests of other actors may already have taken effect */
+            int n2 = ALOAD(m->nstarted);
+            for (int j = 0; j < n2 && j < MAXREQ; j++)
+                if (j != k && ALOAD(m->returned[j]) != 2 &&
+                    (m->npool[j] == target || m->npool[j] < 0))
                     maybe = 1;
             if (!maybe)
                 viol("migrate_to_pool(%d) was rejected as the current pool, but the unit is in pool %d", target, cur);
@@ -160,7 +193,9 @@ static void op_mig(actor *a, int ui, int how, int target)
                     if (!serves)
                         others++;
                 }
-            if (others > 0 && !pending)
+            /* the routine also skips the stream the unit last ran on, which need
+             * not be the one serving its pool: two candidates must remain */
+            if (others > 1 && !pending)
                 viol("ABT_thread_migrate returned %d although %d other running stream(s) not serving the unit's pool exist", rc, others);
             return;
         }
@@ -176,6 +211,7 @@ static void op_mig(actor *a, int ui, int how, int target)
         }
         m->npool[k] = -2 - target; /* some pool of stream `target` */
     }
+    ASTORE(m->t_ret[k], now_tick());
     ASTORE(m->returned[k], 1);
     u->migr_pending = 1;
     stat_add("mig_accepted", 1);
@@ -201,7 +237,8 @@ static void unit_point_after(actor *a, uint64_t tick, int must, const char *what
     if (a->kind == A_UNIT && a->cancelled && a->cancel_ret_tick && tick > a->cancel_ret_tick)
         viol("u%d kept running after a scheduling point (%s) that began after ABT_thread_cancel had returned",
              a->id, what);
-    mig_after_point(a, must);
+    (void)must;
+    mig_after_point_t(a, tick);
 }
 
 /* ---- C11 (b): suspend / resume ------------------------------------------------ */
@@ -232,6 +269,7 @@ static void op_resume(actor *a, int ui)
 {
     actor *u = &G.unit[ui];
     int round = u->resume_rounds_done + 1;
+    wait_arm();
     while (ALOAD(u->suspends_called) < round) {
         if (u->ends == u->incarnation)
             generr("resume of a unit that never suspends");
@@ -239,6 +277,7 @@ static void op_resume(actor *a, int ui)
     }
     int polls = 0;
     for (;;) {
+        wait_arm();
         ABT_thread_state st;
         int rc = ABT_thread_get_state(u->h, &st);
         CHECK_RC(rc, "ABT_thread_get_state");
